@@ -3,7 +3,7 @@
     [..._src] functions of PV.LehmannGen are the model functions, and the theorems of props/Properties_C01.v hold of them. *)
 Require Import Bool List Arith ZArith Lia Reals Ring_theory Field_theory.
 From PV Require Import EDSpec NumLit BigSum Sparse SparseProofs TermList TermListProofs GFPart GFPartProofs GFFullProofs
-     LehmannShapes LehmannInterp LehmannInterpProofs LehmannGen LehmannGenProofs.
+     LehmannShapes LehmannInterp LehmannInterpProofs LehmannGenEquiv LehmannGen LehmannGenProofs.
 From PVgen Require Import Gen_C01 Gen_LehGFPartCompute Gen_LehAddTerm Gen_LehTermListEval Gen_LehGFTermTau Gen_LehGFPartEval Gen_LehGFEval.
 Import ListNotations.
 
@@ -29,10 +29,12 @@ Proof. repeat split; reflexivity. Qed.
 (** GreensFunction::operator()(z) / of_tau: if(Vanishing) return 0; else { Value = 0; for(parts) Value += part(arg); return Value; } *)
 Definition model_gf_value (K : Type) : list (vstmt K) :=
   [VsIf VcVanishing [VsReturnZero] [VsInit; VsForParts AccPlus; VsReturnValue]].
+(** the source may write the same function in another, equivalent way ([LehmannGenEquiv.vequiv]: same returned value for every
+    state of the object), e.g.  Value = 0; if(!Vanishing) for(parts) Value += part(arg); return Value; *)
 Lemma gen_gf_value_is_model (K : Type) (NO : numops K) :
-  gen_gf_value_z K NO = model_gf_value K /\ gen_gf_value_tau K NO = model_gf_value K /\
+  vequiv (gen_gf_value_z K NO) (model_gf_value K) /\ vequiv (gen_gf_value_tau K NO) (model_gf_value K) /\
   (forall n, gen_gf_matsubara n = gf_total_matsubara_mult n).
-Proof. repeat split; reflexivity. Qed.
+Proof. split; [|split]; [vequiv_auto|vequiv_auto|reflexivity]. Qed.
 
 Lemma all_some_option_map {A B C} (f : A -> option B) (h : B -> C) (l : list A) :
   all_some (map (fun x => option_map h (f x)) l) = option_map (map h) (all_some (map f l)).
